@@ -28,7 +28,7 @@ func init() {
 		Title: "Read-only operations on a shared packet are safe to run concurrently",
 		Level: "model_checking",
 		Rule: "(gate) the instrumenter verifies statically that the library uses no synchronisation (no sync / sync/atomic / chan / go / select). Under that gate a data race exists iff some read-only operation writes memory another operation accesses. " +
-			"(monitor, deciding step) explicit-state check on the statement-instrumented build: for every shared configuration (the bases and every <=1 (quick) / <=2 (thorough) field deviation of all 15 types, a will message shared between a CONNECT and direct use, two packets of different types side by side) and every read-only operation (WriteTo, String, Dump, WellFormed, all accessors; ReadPacket on a private stream) the deep digest of ALL shared state (packet graphs to cap + every package-level variable) is evaluated AT EVERY STATEMENT POINT of the operation; any change, even if restored later, is a shared write => violation with the statement as witness. " +
+			"(monitor, deciding step) explicit-state check on the statement-instrumented build: for every shared configuration (the bases and every <=1 (quick) / <=2 (thorough) field deviation of all 15 types, each built once from its New function and once from the zero value &T{} through the setters, a will message shared between a CONNECT and direct use, two packets of different types side by side) and every read-only operation (WriteTo, String, Dump, WellFormed, all accessors; ReadPacket on a private stream) the deep digest of ALL shared state (packet graphs to cap + every package-level variable) is evaluated AT EVERY STATEMENT POINT of the operation; any change, even if restored later, is a shared write => violation with the statement as witness. " +
 			"(schedules) cooperative scheduler over the same statement points: 2 and 3 goroutines running 1-3 operations each on shared packets; ALL schedules with <=1 preemption (<=2 for scenarios of at most 700 scheduling points; thorough: <=2, and <=3 for scenarios of at most 300 points) are executed on the real code (goroutine hand-offs only where the schedule says), every operation's output must equal its sequential reference and the final digest the initial one. " +
 			"(race pass, secondary) the same scenario bodies free-running under the Go race detector, 16 goroutines from a barrier. states = distinct (configuration, statement point) monitor states; transitions = statement points executed under the monitor + schedules executed; distinct_nontrivial = distinct schedules with at least one preemption plus distinct monitored (configuration, operation) pairs.",
 		Assumptions: []string{
@@ -599,6 +599,23 @@ func c13Monitor(t byte, vec gen.Vec, op string, gateOK, zero bool) (*core.Findin
 		Detail: fmt.Sprintf("%s: %s writes shared state (packet graph or package-level variable), first seen %s; two goroutines running it on the same packet race", desc, op, at)}, steps
 }
 
+// c13MonitorDecoded: the shared packet is the one ReadPacket returns for frame.
+func c13MonitorDecoded(frame []byte, op string, gateOK bool) (*core.Finding, int64) {
+	resetGlobals()
+	q, err, res := readPacket(bytes.NewReader(append([]byte{}, frame...)), stepBudget(len(frame)))
+	if err != nil || q == nil || res.Panic != "" || res.Budget {
+		return nil, 0
+	}
+	other := mustBuild(richPacket(4, true))
+	roots := append([]any{q, other}, globalsRoots()...)
+	at, steps := monitorOp(roots, func() { c11Apply(q, op) })
+	if at == "" || !gateOK {
+		return nil, steps
+	}
+	return &core.Finding{Class: "shared-write/decoded/" + op + "/" + bind.TypeNames[frame[0]>>4], Sig: map[string]string{"op": op, "type": bind.TypeNames[frame[0]>>4]},
+		Detail: fmt.Sprintf("packet decoded from %s: %s writes shared state (packet graph or package-level variable), first seen %s; two goroutines running it on the same packet race", abbrevHex(frame), op, at)}, steps
+}
+
 var schedulesBlocked bool
 
 func runC13(x *core.Ctx) {
@@ -669,6 +686,38 @@ func runC13(x *core.Ctx) {
 		x.Sample("monitor", 1, func() any {
 			return map[string]any{"type": s.Name, "configurations": len(targets), "operations": monitorOps}
 		})
+	}
+	// monitor over packets that came off the wire: every frame of the valid
+	// corpus V and the accepted frames with foreign properties, decoded by
+	// ReadPacket (what a decoder keeps back - views of the input, lazily
+	// built values - is finished by the first operation that needs it)
+	{
+		var frames [][]byte
+		for _, v := range validCorpus() {
+			frames = append(frames, v.B)
+		}
+		frames = append(frames, foreignFrames()...)
+		for _, fr := range frames {
+			if !x.Mine() {
+				continue
+			}
+			if x.Expired() {
+				return
+			}
+			for _, op := range monitorOps {
+				f, steps := c13MonitorDecoded(fr, op, gateOK)
+				x.Eval("monitor.decoded." + op)
+				x.R.States += steps
+				x.R.Transitions += steps
+				x.Distinct(core.Hash([]byte(op), fr))
+				if f != nil {
+					op, fr := op, fr
+					x.Report(f, func() core.Case {
+						return core.Case{Harness: "c13.monitor.decoded", Frame: hexOf(fr), Params: map[string]any{"op": op}}
+					}, func() *core.Finding { g, _ := c13MonitorDecoded(fr, op, true); return g })
+				}
+			}
+		}
 	}
 	// monitor over the scenarios (shared will, two types, ReadPacket)
 	scs := Scenarios()
@@ -840,6 +889,9 @@ func runC13(x *core.Ctx) {
 
 func replayC13(c core.Case) *core.Finding {
 	switch c.Harness {
+	case "c13.monitor.decoded":
+		f, _ := c13MonitorDecoded(unhex(c.Frame), paramStr(c.Params, "op"), true)
+		return f
 	case "c13.monitor":
 		zero, _ := c.Params["zero"].(bool)
 		f, _ := c13Monitor(byte(paramInt(c.Params, "type")), vecParam(c), paramStr(c.Params, "op"), true, zero)
